@@ -2382,9 +2382,28 @@ func (c *Conn) negotiateVersionClient(ctx context.Context) ([]*dtlsflight.Packet
 		return nil, err
 	}
 
+	// No FSM runs yet, so this loop owns the retransmission of the ClientHello
+	// (RFC 6347 Section 4.2.4 timer, with the configured interval and backoff).
+	retransmitInterval := c.handshakeConfig.InitialRetransmitInterval
 	for {
-		if err := c.readAndBufferNoFSM(ctx); err != nil {
-			return nil, err
+		readCtx, cancelRead := context.WithTimeout(ctx, retransmitInterval)
+		err := c.readAndBufferNoFSM(readCtx)
+		cancelRead()
+		if err != nil {
+			if ctx.Err() != nil || !errors.Is(err, context.DeadlineExceeded) {
+				return nil, err
+			}
+			if err = c.writePackets(ctx, pkts); err != nil {
+				return nil, err
+			}
+			if !c.handshakeConfig.DisableRetransmitBackoff {
+				retransmitInterval *= 2
+			}
+			if retransmitInterval > 60*time.Second {
+				retransmitInterval = 60 * time.Second
+			}
+
+			continue
 		}
 		if ok, err := c.pickVersionFromServerResponse(); err != nil {
 			var negotiationAlert *alert.Alert
